@@ -42,7 +42,13 @@ def mk_set(case, row=None, shift=0.0):
             d = np.array(d, dtype=float) if row is None else float(d[row])
         term = refmath.translate(a["term"], shift) if shift else a["term"]
         acts.append(fl.Activated(build.mk_term(term), d, build.mk_norm(a["implication"], "t")))
-    return fl.Aggregated("Y", lo, hi, build.mk_norm(case["aggregation"], "s"), acts), lo, hi
+    # the range integrated over is the one passed to defuzzify(); the Aggregated object's own minimum / maximum
+    # attributes (NaN by default) do not restrict its membership function
+    own = case.get("own_bounds")
+    w = hi - lo
+    alo, ahi = {None: (lo, hi), "nan": (math.nan, math.nan), "narrow": (lo + 0.25 * w, hi - 0.25 * w),
+                "wide": (lo - w, hi + w)}[own]
+    return fl.Aggregated("Y", alo, ahi, build.mk_norm(case["aggregation"], "s"), acts), lo, hi
 
 
 def midpoints(lo, hi, r):
@@ -198,6 +204,7 @@ def cases(draw):
         r = draw(st.one_of(st.sampled_from([1, 2, 3, 5, 10, 17, 64, 100, 1000]), st.integers(1, 40),
                            st.integers(1, 1000)))
     case = {"min": lo, "max": hi, "resolution": r, "aggregation": draw(st.sampled_from(refmath.SNORMS)), "acts": acts}
+    case["own_bounds"] = draw(st.sampled_from([None, None, None, "nan", "narrow", "wide"]))
     if draw(st.integers(0, 3)) == 0:
         case["warm_resolution"] = draw(st.sampled_from([1, 2, 7, 50, 100]))
         case["warm_via"] = draw(st.sampled_from(["attribute", "configure"]))
